@@ -3,7 +3,7 @@ import z3
 from pyvc.values import *
 from pyvc.values import UNFOLD, ForallList, LEMMA_HOOKS
 from pyvc.contracts import Contract, Lemma
-from pyvc.symexec import attr0, field0, LoopContract, PyFunc, PyTuple, Raise
+from pyvc.symexec import attr0, field0, LoopContract, PyFunc, PyTuple, Raise, fun_id
 from .common import *
 from .c12 import S_, schema_types_wf, AllTypeEntries
 
@@ -589,8 +589,16 @@ class SchemaBake(Contract):
         if out.kind == 'raise':
             return [('only_a_refusing_validator_stops_the_bake', z3.And(z3.Or(self.ext_refused, self.rules_refused), exact(out.value, 'GraphQLSchemaError'))),
                     ('nothing_is_merged_after_a_refused_extension', z3.Implies(self.ext_refused, steps == V.List(mklist(*[S(x) for x in order[:2]]))))]
+        me, st = A['self'], out.st
+        fnv = lambda key: V.Fun(fun_id(key), VL.nil)
+        pick = lambda custom, key: z3.If(py_truthy(custom), custom, fnv(key))
+        flag = lambda x: z3.If(x != V.None_, x, V.Bool(True))
         return [('both_rule_sets_accepted', z3.And(z3.Not(self.ext_refused), z3.Not(self.rules_refused))),
-                ('validated_in_order', steps == V.List(mklist(*[S(x) for x in order])))]
+                ('validated_in_order', steps == V.List(mklist(*[S(x) for x in order]))),
+                ('schema_defaults', z3.And(fld(st, 'default_type_resolver', me) == pick(A['custom_default_type_resolver'], 'tartiflette/resolver/default.py::default_type_resolver'),
+                                           fld(st, 'default_arguments_coercer', me) == pick(A['custom_default_arguments_coercer'], 'tartiflette/resolver/default.py::gather_arguments_coercer'),
+                                           fld(st, 'coerce_list_concurrently', me) == flag(A['coerce_list_concurrently']),
+                                           fld(st, 'coerce_parent_concurrently', me) == flag(A['coerce_parent_concurrently'])))]
 
 
 CONTRACTS.append(SchemaBake())
